@@ -360,7 +360,7 @@ class Director:
             basic.asyncio = real
 
 
-def run_schedule(case, alarm_s=20):
+def run_schedule(case, alarm_s=8):
     """case: {cfg, texts, program}.  Returns the observation dict (or {"hang": True})."""
     d = Director(case["cfg"], case["texts"], case["program"])
     loop = asyncio.new_event_loop()
@@ -386,7 +386,7 @@ def run_schedule(case, alarm_s=20):
         asyncio.set_event_loop(None)
 
 
-def run_realtime(case, alarm_s=20):
+def run_realtime(case, alarm_s=12):
     """No wrapping at all: real asyncio.sleep / Event, real (small) latencies."""
     import nemoguardrails.embeddings.basic as basic
 
@@ -801,7 +801,11 @@ def anchor_hashes():
 
 # normalised-AST hashes of the anchored code the models were last reconciled with (effort
 # heuristic only: a difference makes the quick tier use a larger budget, DESIGN 2.2)
-RECONCILED = {}
+RECONCILED = {
+    "EmbeddingsCache": "d30fbe19ef4c", "FilesystemCacheStore": "0a7dcca9f08c", "HashKeyGenerator": "d4584899cb3e",
+    "InMemoryCacheStore": "4f55f64e88f8", "MD5KeyGenerator": "be81fbbe544e", "_batch_get_embeddings": "d1d0a45e940c",
+    "_get_embeddings": "a0ddcf323360", "_run_batch": "29c2857303be", "cache_embeddings": "79caad0ab8ac",
+}
 
 
 def run(tier, seed, replay=None):
@@ -857,6 +861,7 @@ def run(tier, seed, replay=None):
         n_nontrivial = 0
         collisions_shown = 0
         cache_viol = 0
+        cache_find = {}
         for spec in cache_specs:
             try:
                 obs, final = run_cache_case(spec)
@@ -881,8 +886,10 @@ def run(tier, seed, replay=None):
             if wrong and shipped:
                 cache_viol += 1
                 shape = "dups" if any(len(set(t)) < len(t) for t in spec["calls"]) else "nodups"
-                out.findings.append(C.Finding(f"cache:wrapper_decorator:{wrong[0]}:{tag}:{shape}", wrong[1],
-                                              {k: v for k, v in spec.items() if k != "dir"}))
+                sig = f"cache:wrapper_decorator:{wrong[0]}:{tag}:{shape}"
+                size = sum(len(t) + 1 for t in spec["calls"])
+                if sig not in cache_find or size < cache_find[sig][0]:
+                    cache_find[sig] = (size, wrong[1], {k: v for k, v in spec.items() if k != "dir"})
             elif wrong and not shipped:
                 collisions_shown += 1
             term, why = cache_case_term(spec, obs, final)
@@ -898,6 +905,8 @@ def run(tier, seed, replay=None):
                     n_nontrivial += 1
             terms.append(term)
             kept.append(spec)
+        for sig, (_sz, what, payload) in sorted(cache_find.items()):
+            out.findings.append(C.Finding(sig, what, payload))
         cache_dis = 0
         if okm and terms:
             bools, err = C.run_cases(PID + "_cache", PREAMBLE, terms, "check_cache")
